@@ -63,7 +63,12 @@ type poolResult struct {
 // PoolLostWorkers counts workers that died once but whose task succeeded on a fresh worker.
 var PoolLostWorkers int64
 
-const poolWatchdog = 120 * time.Second
+var poolWatchdog = func() time.Duration {
+	if v, err := time.ParseDuration(os.Getenv("VERIF_WATCHDOG")); err == nil && v > 0 {
+		return v
+	}
+	return 300 * time.Second
+}()
 
 // runPool executes tasks on n worker processes; handle is called (concurrently)
 // for every task.
